@@ -704,6 +704,77 @@ fn run_ckpt_case(cx: &mut Ctx, wck: &mut CaseWriter, label: &str, pre: Option<Ve
     let _ = fs::remove_file(&snap);
 }
 
+/// log rotation (small max_size_bytes) during the calls, then a COMPLETE checkpoint, then more
+/// calls crashed at every byte and recovered with the snapshot: whatever rotation lost before the
+/// checkpoint (known class wal-rotation), everything acknowledged after it must survive
+fn run_rot_case(cx: &mut Ctx, wrot: &mut CaseWriter, label: &str, ops1: Vec<Op>, ops2: Vec<Op>, maxsz: u64) {
+    cx.counter += 1;
+    let dir: PathBuf = cx.args.out.join("scratch");
+    fs::create_dir_all(&dir).unwrap();
+    let wal = dir.join(format!("r{}.wal", cx.counter));
+    let snap = dir.join(format!("r{}.snap", cx.counter));
+    let scratch = dir.join(format!("crashr{}.wal", cx.counter));
+    let rotated = |i: usize| dir.join(format!("r{}.wal.{i}", cx.counter));
+    let cleanup = |all: bool| {
+        for i in 1..4 {
+            let _ = fs::remove_file(rotated(i));
+        }
+        if all {
+            let _ = fs::remove_file(&wal);
+            let _ = fs::remove_file(&snap);
+        }
+    };
+    cleanup(true);
+    let cfg = WalConfig { max_size_bytes: maxsz, ..WalConfig::default() };
+    let all_ops: Vec<Op> = ops1.iter().chain(ops2.iter()).cloned().collect();
+    let tab = table(&mut cx.vals, &all_ops, all_ops.len() as u64 + 1);
+    let store = TensorStore::open_durable(&wal, cfg.clone()).expect("open_durable");
+    let o1 = run_ops(&store, &wal, &mut cx.vals, &ops1, &mut cx.dist, &snap);
+    let live = o1.lives.last().unwrap().clone();
+    let wlen = fs::metadata(&wal).map(|m| m.len()).unwrap_or(0);
+    if !rotated(1).exists() {
+        cx.dist.hit("rot.no_rotation_happened");
+        cleanup(true);
+        return;
+    }
+    if store.checkpoint(&snap).is_err() {
+        cx.dist.hit("rot.checkpoint_failed");
+        cleanup(true);
+        return;
+    }
+    let rot_before = (1..4).filter(|i| rotated(*i).exists()).count();
+    let mut pick = pick_end();
+    let thorough = cx.args.thorough();
+    let (g2, fb, _ch) = run_generation(store, &wal, &scratch, &mut cx.vals, &ops2, &mut *pick, &mut cx.dist, thorough, Some(&snap), &cfg);
+    let rot_after = (1..4).filter(|i| rotated(*i).exists()).count();
+    if rot_after != rot_before || fs::read(rotated(1)).map(|b_| b_.len()).unwrap_or(0) as u64 != wlen && false {
+        // the calls after the checkpoint rotated the log again: back in the known class, not this stream
+        cx.dist.hit("rot.rotated_again_after_checkpoint");
+        cleanup(true);
+        return;
+    }
+    let _ = fb;
+    cx.dist.hit("rot.rotation_then_checkpoint_then_writes");
+    let term = format!(
+        "({}, {}, {}, {}, {}, {}, {}, {})",
+        tab,
+        K,
+        maxsz,
+        list(o1.model_ops.iter().map(|o| o.coq())),
+        list(o1.results.iter().map(|r| b(*r))),
+        obs_coq(&live),
+        wlen,
+        g2.term
+    );
+    let human = format!(
+        "{label}: max_size_bytes={maxsz} ops_before_checkpoint={:?} (log rotated, {wlen} bytes in the live file) live_at_checkpoint={} | after checkpoint: {}{}",
+        ops1, obs_human(&live), g2.human,
+        g2.oracle_fail.as_ref().map(|f| format!(" ORACLE-FALSE: after the completed checkpoint: {f}")).unwrap_or_default()
+    );
+    wrot.push(&term, &human, true);
+    cleanup(true);
+}
+
 fn pick_end() -> Box<dyn FnMut(u64, u64, &[u64]) -> u64> {
     Box::new(|_b, len, _e| len)
 }
@@ -938,6 +1009,33 @@ fn main() {
         run_ckpt_case(&mut cx, &mut wck, &format!("seed{} ckpt#{}", args.seed, ci), pre, ops1, ops2, cfg);
     }
 
+    // ---------------- rotation, then a completed checkpoint, then writes ----------------
+    let mut wrot = CaseWriter::new(&args.out, "rot");
+    run_rot_case(
+        &mut cx,
+        &mut wrot,
+        "corpus rotate-checkpoint-write",
+        vec![Op::Put(1, v(1, None)), Op::Put(6, v(2, None)), Op::Put(2, v(3, None)), Op::Put(7, v(4, None)), Op::Put(3, v(5, None)), Op::Put(8, v(1, None)), Op::Del(2)],
+        vec![Op::Put(1, v(2, None)), Op::Del(6), Op::Put(2, v(6, None))],
+        110,
+    );
+    let nrot = args.budget(6, 80);
+    for ci in 0..nrot {
+        let mut keys: Vec<u64> = (0..K).filter(|k| k % 5 != 4).collect();
+        rng.shuffle(&mut keys);
+        keys.truncate(rng.range(3, 6) as usize);
+        let n1 = rng.range(5, 12) as usize;
+        let n2 = rng.range(1, 3) as usize;
+        let maxsz = rng.range(90, 150);
+        let small = |r: &mut Rng, nn: usize, ks: &[u64]| -> Vec<Op> {
+            (0..nn).map(|_| if r.chance(4, 5) { Op::Put(*r.pick(ks), Val { base: r.below(NBASE), emb: None }) } else { Op::Del(*r.pick(ks)) }).collect()
+        };
+        let ops1 = small(&mut rng, n1, &keys);
+        let ops2 = small(&mut rng, n2, &keys);
+        cx.dist.hit("case.rotation");
+        run_rot_case(&mut cx, &mut wrot, &format!("seed{} rot#{}", args.seed, ci), ops1, ops2, maxsz);
+    }
+
     // ---------------- implementation-only stream: log rotation (known finding class) ----------------
     // Rotation renames the live log to .1 and starts an empty one; recovery reads only the live
     // file.  With a small size limit (public WalConfig) acknowledged writes are gone after restart.
@@ -974,13 +1072,44 @@ fn main() {
             }
         }
     }
+    // ---------------- implementation-only stream: one very large record ----------------
+    // one ~17 MiB value (incompressible bytes), a small write after it, restart: both must be back
+    {
+        let dir = args.out.join("scratch");
+        fs::create_dir_all(&dir).unwrap();
+        let wal = dir.join("large.wal");
+        let _ = fs::remove_file(&wal);
+        let cfg = WalConfig::default();
+        let mut r2 = rng.fork();
+        let mut bigv = TensorData::new();
+        bigv.set("raw", TensorValue::Scalar(ScalarValue::Bytes((0..17 * 1024 * 1024 / 8).flat_map(|_| r2.next().to_le_bytes()).collect())));
+        if let Ok(store) = TensorStore::open_durable(&wal, cfg.clone()) {
+            let p1 = store.put_durable("user:big", bigv.clone()).is_ok();
+            let p2 = store.put_durable(kname(1), cx.vals.data(v(1, None))).is_ok();
+            drop(store);
+            cx.dist.hit("large_record.probe");
+            let rec = TensorStore::recover(&wal, &cfg, None);
+            let ok = match &rec {
+                Ok(st) => st.get("user:big").ok().as_ref() == Some(&bigv) && st.get(&kname(1)).ok().map(|d| canon(&d)) == Some(v(1, None)),
+                Err(_) => false,
+            };
+            if p1 && p2 && !ok {
+                cx.hits.push(
+                    "large-record",
+                    &format!("put_durable(user:big, 17 MiB of bytes) -> Ok; put_durable(user:1) -> Ok; recover: {}", match &rec { Ok(st) => format!("user:big present: {}, user:1 present: {}", st.get("user:big").is_ok(), st.get(&kname(1)).is_ok()), Err(e) => format!("FAILED: {e}") }),
+                    json!({"steps": "put_durable(user:big, Bytes(17 MiB)); put_durable(user:1, {f:1}); recover"}),
+                );
+            }
+        }
+        let _ = fs::remove_file(&wal);
+    }
     let _ = fs::remove_dir_all(args.out.join("scratch"));
 
     write_meta(
         &args.out,
         json!({
             "property": "C02", "seed": args.seed, "tier": args.tier,
-            "kinds": [cx.w.summary(), wck.summary()],
+            "kinds": [cx.w.summary(), wck.summary(), wrot.summary()],
             "distribution": cx.dist.json(),
             "hits": cx.hits.0,
             "nontrivial_rule": "a case with at least 2 durable calls; every case recovers at EVERY byte offset of what each generation appended (quick tier: stride 7 inside the payload of records > 200 bytes, every byte within 24 bytes of each record edge)",
